@@ -194,6 +194,78 @@ def collect(ctx: Ctx):
                             "via": "LAN.send, altered response " + {"same": "behind a good one in the same segment", "next": "in the segment after a good one",
                                                                       "queued": "already queued when the next send starts"}[mode]})
     vloop.run(loop, go2())
+
+    # rare session keys reached through the REAL handshake (the appliance steers its random value): keys with leading / trailing zero bytes, the
+    # all-zero key, keys of 0xFF bytes; every request must still be an encrypted request under that key and every response decode.  And an exchange
+    # that straddles the end of the key's 12 h lifetime: the authentic response to a request sent under a valid key still decodes
+    plan["mode"] = None
+    shapes = [("lead", 1), ("lead", 2), ("lead", 5), ("trail", 1), ("trail", 3), ("zero", 32), ("ff", 32), ("lead", 31)]
+
+    async def go3():
+        for k, (shape, nz) in enumerate(shapes * ctx.pick(1, 4)):
+            def hook(nonce, shape=shape, nz=nz):
+                want = bytearray(rbytes(rng, 32))
+                if shape == "lead":
+                    want[:nz] = bytes(nz)
+                elif shape == "trail":
+                    want[-nz:] = bytes(nz)
+                elif shape == "zero":
+                    want = bytearray(32)
+                else:
+                    want = bytearray(b"\xff" * 32)
+                return bytes(a ^ b for a, b in zip(want, key))            # session key = nonce XOR device key = want
+            dev.nonce_hook = hook
+            l = LAN("10.0.0.1", 6444, 78)
+            f = rbytes(rng, rng.choice([0, 5, 20, 34]))
+            n0 = len(dev.rx)
+            try:
+                await l.authenticate(tok, key)
+                r = await l.send(f, retries=1)
+                res = {"k": "frame", "f": B(r[0]) if r else []}
+            except Exception as e:  # noqa: BLE001 - code under test
+                res = {"k": "raise", "exc": type(e).__name__}
+            dev.nonce_hook = None
+            skey = dev.sess[net.conns[-1].cid]["key"]
+            rx = [x for x in dev.rx[n0:] if x["kind"] == "data"]
+            via = f"LAN.send under a session key with {shape} bytes ({nz})"
+            if rx:
+                raw = rx[0]["raw"]
+                d = landev.v3_dec_packet(skey, raw)
+                vectors.append({"kind": "encreq", "payload": B(d.get("payload", b"")), "ctr": d.get("ctr", -1), "res": {"k": "frame", "f": B(raw)}, "o": v3_oracle(skey, raw), "via": via})
+            else:
+                vectors.append({"kind": "encreq", "payload": [], "ctr": 0, "res": {"k": "raise", "exc": "NothingOnWire:" + str(res.get("exc", ""))}, "o": v3_oracle(skey, b""), "via": via})
+            ref = landev.v3_enc_packet(skey, f, 0)
+            vectors.append({"kind": "decresp", "payload": B(f), "ctr": 0, "p": B(ref), "o": v3_oracle(skey, ref), "res": res, "via": via})
+            if l._protocol:
+                l._disconnect()
+        # straddling the key lifetime
+        for k in range(ctx.pick(4, 30)):
+            l = LAN("10.0.0.1", 6444, 79)
+            f = rbytes(rng, rng.choice([1, 20, 34]))
+            await l.authenticate(tok, key)
+            skey = dev.sess[net.conns[-1].cid]["key"]
+
+            def respond_late(tr, packets, k=k):
+                if packets[0][5] & 0xF == 1:
+                    for q in packets:
+                        loop.call_soon(tr.feed, q)
+                    return
+                vloop.VClock.offset += 12 * 3600 - (0.2 if k % 2 else -5)      # the 12 h since the handshake run out while the reply is on its way (or just do not)
+                for q in packets:
+                    loop.call_at(loop.time() + 0.5, tr.feed, q)
+            dev.respond = respond_late
+            try:
+                r = await l.send(f, retries=1)
+                res = {"k": "frame", "f": B(r[0]) if r else []}
+            except Exception as e:  # noqa: BLE001 - code under test
+                res = {"k": "raise", "exc": type(e).__name__}
+            dev.respond = respond
+            ref = landev.v3_enc_packet(skey, f, 0)
+            vectors.append({"kind": "decresp", "payload": B(f), "ctr": 0, "p": B(ref), "o": v3_oracle(skey, ref), "res": res,
+                            "via": "LAN.send, request sent under a valid key, response arriving " + ("just before" if k % 2 else "after") + " the end of the key's 12 h lifetime"})
+            if l._protocol:
+                l._disconnect()
+    vloop.run(loop, go3())
     return vectors
 
 
@@ -219,7 +291,7 @@ def judge(ctx, vectors, canaries=True):
     n = len(vectors)
     if len({i for i, _ in rej if i >= n}) != len(cans):
         from ..tlc import MachineryError
-        raise MachineryError("Trace_V3 accepted a canary")
+        ctx.defer_machinery("Trace_V3 accepted a canary")
     ctx.extra["canaries_rejected"] = len(cans)
     for i, clause in rej:
         if i < n:
